@@ -191,7 +191,13 @@ def generate(run_seed: int, tier: str = 'quick', stream: str = 'seq') -> dict:
     fmts_allowed = rng.pick([['lammps', 'vasp', 'gromacs'], ['lammps', 'vasp', 'gromacs'], ['vasp'], ['lammps'], ['gromacs'], ['vasp', 'lammps']])
     datasets = [worlds.gen_dataset_params(rng, fmt=rng.pick(fmts_allowed), small=rng.chance(0.3)) for _ in range(n_ds)]
     # per-dataset subset of argsets in play (few, to provoke key collisions)
-    argsets = [worlds.gen_argsets(rng, d['fmt']) for d in datasets]
+    argsets = []
+    for i, d in enumerate(datasets):
+        same = [j for j in range(i) if datasets[j]['fmt'] == d['fmt']]
+        if same and rng.chance(0.6):  # same options for another run of the same code: same file names, another directory
+            argsets.append(copy.deepcopy(argsets[rng.pick(same)]))
+        else:
+            argsets.append(worlds.gen_argsets(rng, d['fmt']))
     argsub = [list(range(len(a))) for a in argsets]
     wf = [] if fault_free else [k for k in WRITE_FAULTS if rng.chance(0.7)]
     rf = [] if fault_free else [k for k in READ_FAULTS if rng.chance(0.6)]
@@ -313,7 +319,9 @@ def generate(run_seed: int, tier: str = 'quick', stream: str = 'seq') -> dict:
         'run_seed': run_seed,
         'stream': stream,
         'config': {'fault_free': fault_free, 'write_faults': wf, 'read_faults': rf, 'damage_kinds': dk, 'p_fault': p_fault,
-                   'paths_as': rng.pick(['str', 'str', 'Path'])},
+                   'paths_as': rng.pick(['str', 'str', 'Path', 'cwd'] if all(d['fmt'] != 'gromacs' for d in datasets) else ['str', 'str', 'Path'])},
+        # ('cwd': the caller sits in the dataset directory and uses bare file names; not with GROMACS, whose caches pickle MDAnalysis
+        #  readers that re-open the trajectory by the relative name they were given)
         'world': {'datasets': datasets, 'argsets': argsets},
         'ops': ops,
     }
@@ -363,8 +371,22 @@ class Run:
 
         d = self.datasets[ds]
         argset = self.argset(ds, args_idx)
-        name, kw = worlds.loader_call(d['fmt'], dirpath, argset, cache)
-        if self.sc.get('config', {}).get('paths_as') == 'Path':
+        mode = self.sc.get('config', {}).get('paths_as')
+        in_cwd = mode == 'cwd' and not dirpath.startswith('refrun')
+        if in_cwd:
+            # the caller works inside the dataset directory and names the files by their bare names
+            if cache is not None:
+                cache = os.path.relpath(cache, dirpath)
+            name, kw = worlds.loader_call(d['fmt'], '.', argset, cache, dataset=d)
+            kw = {k: (v[2:] if isinstance(v, str) and v.startswith('./') else v) for k, v in kw.items()}
+            here = os.getcwd()
+            os.chdir(dirpath)
+            try:
+                return getattr(Trajectory, name)(**kw)
+            finally:
+                os.chdir(here)
+        name, kw = worlds.loader_call(d['fmt'], dirpath, argset, cache, dataset=d)
+        if mode == 'Path':
             from pathlib import Path
 
             kw = {k: (Path(v) if k in ('coords_file', 'data_file', 'xml_file', 'topology_file', 'cache') and isinstance(v, str) else v) for k, v in kw.items()}
@@ -400,6 +422,12 @@ class Run:
     def explicit_path(self, key) -> str | None:
         if key['cache'] == 'default':
             return None
+        if key['cache'] == 'x1':
+            # a name a user would pick: the source's stem + '.cache', next to the source (one per argument set would collide,
+            # so only the first argument set of a dataset gets it)
+            stem = {'lammps': 'coords', 'vasp': 'vasprun', 'gromacs': 'traj'}[self.datasets[key['ds']]['fmt']]
+            if key['args'] == 0:
+                return os.path.join(f"d{key['ds']}", f'{stem}.cache')
         return os.path.join(f"d{key['ds']}", f"explicit_a{key['args']}_{key['cache']}.cache")
 
     def dir_snapshot(self, ds: int) -> dict:
@@ -1153,19 +1181,50 @@ def enum_world(rng: SimRandom, fmt: str) -> dict:
 
 
 def cache_size_of(dataset: dict, args_idx: int, workdir: str) -> int:
-    """Size in bytes of the cache the loader writes for this dataset (measured)."""
-    sc = {'world': {'datasets': [dataset]}, 'ops': [], 'config': {}}
-    cwd = os.getcwd()
-    os.makedirs(workdir, exist_ok=True)
-    os.chdir(workdir)
+    """Size in bytes of the cache file the loader writes for this dataset, measured on disk in a forked child (so that no
+    state of the code under test - e.g. a memo - survives from one measurement to the next, and the parent stays pristine)."""
+    r_fd, w_fd = os.pipe()
+    pid = os.fork()
+    if pid == 0:
+        code = 0
+        try:
+            os.close(r_fd)
+            dn = os.open(os.devnull, os.O_WRONLY)
+            os.dup2(dn, 1)
+            os.dup2(dn, 2)
+            sc = {'world': {'datasets': [dataset]}, 'ops': [], 'config': {}}
+            os.makedirs(workdir, exist_ok=True)
+            os.chdir(workdir)
+            run = Run(sc, workdir)
+            run.build_world()
+            size = 0
+            try:
+                run._call_loader(0, args_idx, 'd0', None)
+                sizes = [v[0] for v in run.dir_snapshot(0).values()]
+                size = max(sizes) if sizes else 0
+            except Exception:  # noqa: BLE001
+                size = 0
+            if size <= 0:
+                size = run.ref(0, args_idx).get('size', 0)
+            os.write(w_fd, str(int(size)).encode())
+        except BaseException:  # noqa: BLE001
+            code = 3
+        finally:
+            os._exit(code)
+    os.close(w_fd)
+    data = b''
+    while True:
+        b = os.read(r_fd, 64)
+        if not b:
+            break
+        data += b
+    os.close(r_fd)
+    os.waitpid(pid, 0)
+    shutil.rmtree(workdir, ignore_errors=True)
     try:
-        r = Run(sc, workdir)
-        r.build_world()
-        ref = r.ref(0, args_idx)
-        return ref.get('size', 0)
-    finally:
-        os.chdir(cwd)
-        shutil.rmtree(workdir, ignore_errors=True)
+        return int(data or b'0')
+    except ValueError:
+        return 0
 
 
 def enum_scenarios(dataset: dict, args_idx: int, size: int, mode: str, chunk: int = 24, stride: int = 1, kinds=('truncate',)):
@@ -1279,9 +1338,9 @@ def plan_enumeration(tier: str, batch_seed: int, plandir: str):
         big = worlds.gen_dataset_params(rng, fmt='lammps', big=True)
         big['nf'], big['na'], big['species'] = 6000, 8, (big['species'] * 8)[:8]
         bsize = cache_size_of(big, 0, os.path.join(plandir, 'big'))
-        info['large_world'] = {'dataset': big, 'cache_bytes': bsize, 'stride': bsize // 7, 'exhaustive': False}
-        jobs += enum_scenarios(big, 0, bsize, 'E1', chunk=2, stride=bsize // 7)
-        jobs += enum_scenarios(big, 0, bsize, 'E2', chunk=2, stride=bsize // 4)
+        info['large_world'] = {'dataset': big, 'cache_bytes': bsize, 'stride': max(1, bsize // 7), 'exhaustive': False}
+        jobs += enum_scenarios(big, 0, bsize, 'E1', chunk=2, stride=max(1, bsize // 7))
+        jobs += enum_scenarios(big, 0, bsize, 'E2', chunk=2, stride=max(1, bsize // 4))
     if tier == 'thorough':
         # (a) real process death on a sample of offsets of the first world per format
         n_rd = 0
